@@ -342,12 +342,22 @@ func evalCase(opts []OptSpec, expr string, datum interface{}) (req, ans string) 
 			extra = append(extra, o.Unk)
 		}
 	}
-	req = fmt.Sprintf("eval %s %s %s %s", wireOpts(opts), hx(expr), serAny(datum), reTable(ast, extra...))
+	before := serAny(datum)
+	req = fmt.Sprintf("eval %s %s %s %s", wireOpts(opts), hx(expr), before, reTable(ast, extra...))
 	if ev == nil {
 		return req, cans
 	}
-	return req, safeEvaluate(ev, datum)
+	ans = safeEvaluate(ev, datum)
+	// purity, everywhere: the datum (every value reachable from it, nil-ness of pointers included) is what
+	// it was before the call
+	if after := serAny(datum); after != before && len(mutations) < 20 {
+		mutations = append(mutations, Finding{Property: "C13", Kind: "failing-input", What: "Evaluate modified the datum (or a value reachable from it)", Request: req, Detail: expr})
+	}
+	return req, ans
 }
+
+// mutations: purity findings collected by evalCase, handed to the fragment's output by evalText
+var mutations []Finding
 
 func canonResult(x interface{}) string {
 	return serAny(x) // maps are serialised key-sorted
